@@ -64,12 +64,28 @@ def jobs(tier):
         js.append(row_job(8, 0, 8, 11, 3000))      # 165 CPU-s: thorough tier
         js.append(row_job(8, 1, 8, 11, 3000))
         js.append(row_job(4, 0, 24, 25, 3600))
-    # (lead) the deferred long-span fill of rasterize_edges_8 across sample rows (seed C12-4)
-    for k in ((2,) if not th else (2, 3)):
-        j = row_job(8, 0, 16, 19, 2400, case=3, name="row.a8.subrows.k%d.w16" % k, extra={"VC_K": k, "VC_FIXROW": 0, "VC_GROW": 1})
-        j.bound = "image width <= 16 pixels, %d consecutive sample rows of one pixel row, edges starting within 2 pixels of the image and moving linearly by less than the image width per sample row" % k
-        j.domain = ("l->x, r->x and their per-sample-row steps symbolic; width 16; all buffer words symbolic; ghost pixel anywhere in the "
-                    "rasterised row: new == sat(old + sum over the sample rows of the sample count)")
+    # (lead) the deferred long-span fill of rasterize_edges_8 across sample rows (seed C12-4): one scenario per job,
+    # pixel indices of the span ends fixed, sub-pixel parts symbolic.  (A single query with symbolic pixel indices found the
+    # seeded defect but did not finish on the unchanged tree in 40 minutes.)
+    SUB = [  # name, K, first grid row, L0, R0, DL, DR, quick
+        ("restart_right", 2, 0, 0, 6, 6, 6, True), ("restart_left", 2, 0, 8, 15, -8, -8, True), ("same_span", 2, 0, 2, 12, 0, 0, False),
+        ("shrink", 2, 0, 1, 14, 2, -3, True), ("grow", 2, 0, 3, 11, -2, 3, False), ("shift_right", 2, 0, 1, 9, 3, 5, False),
+        ("shift_left", 2, 0, 4, 14, -3, -5, False), ("short_after_long", 2, 0, 1, 12, 4, -5, False),
+        ("three_rows_restart", 3, 0, 0, 6, 6, 6, False), ("three_rows_shrink", 3, 0, 1, 13, 2, -1, False),
+        ("pixel_row_boundary", 2, 14, 1, 12, 0, 0, True), ("full_pixel_row", 15, 0, 1, 12, 0, 0, False),
+        ("full_pixel_row_then_next", 16, 0, 1, 12, 0, 0, False)]
+    for nm, k, y0k, l0, r0, dl, dr, q in SUB:
+        if not (q or th):
+            continue
+        ex = {"VC_K": k, "VC_Y0K": y0k, "VC_L0": "(%d)" % l0, "VC_R0": "(%d)" % r0, "VC_DL": "(%d)" % dl, "VC_DR": "(%d)" % dr}
+        if k >= 15:
+            ex["VC_NOFRAC"] = 1      # measured 330 s; with symbolic sub-pixel parts no result in 1200 s
+        j = row_job(8, 0, 16, max(19, k + 2), 1200 if k < 15 else 3000, case=3, name="row.a8.subrows.%s" % nm, extra=ex)
+        j.cbmc_flags = j.cbmc_flags + ["--slice-formula"]
+        j.bound = ("image 16 pixels wide, %d consecutive sample rows from grid row %d of image row 0; span ends at pixels %d / %d moving by %d / %d pixels "
+                   "per sample row (pixel indices fixed per job, sub-pixel parts %s)" % (k, y0k, l0, r0, dl, dr, "symbolic" if k < 15 else "zero"))
+        j.domain = ("sub-pixel parts of both edges and of both steps symbolic; all buffer words symbolic; ghost slot anywhere in the buffer: pixel of a "
+                    "rasterised row: new == sat(old + sum over its sample rows of the sample count), otherwise unchanged")
         js.append(j)
     js.append(row_job(1, 0, 96, 11, 300, case=1, name="finding.row.a1.far_right"))
     # ---- (4) tiling at row level
